@@ -695,6 +695,10 @@ def build_cases(rnd, tier, search):
                 if opts:
                     a, b = rnd.choice(opts)
                     add("compare", g, a, b)
+    # near misses: the extension of one curve just beyond an end point crosses the other; no intersection on [0,1]^2
+    for _ in range(240 if thorough else 60):
+        p = Z.near_miss(rnd)
+        add("compare", {"family": "near-miss", "tag": p["tag"], "b1": p["n1"], "b2": p["n2"]})
     # refusals: overlapping sub-arcs of a common parent (degree 1..4)
     for _ in range(400 if thorough else 100):
         p = Z.overlapping_arcs(rnd, max_deg=4)
